@@ -61,9 +61,13 @@ fn emit(base: Value, r: Result<Vec<u64>, String>) {
 }
 
 fn cheetah(e: &Env, rng: &mut impl Rng, m: usize, r: usize, n: usize, objective: MatmulHelperObjective, reverse: bool, pack: bool) {
+    cheetah_with(e, rng, m, r, n, objective, reverse, pack, false);
+}
+
+fn cheetah_with(e: &Env, rng: &mut impl Rng, m: usize, r: usize, n: usize, objective: MatmulHelperObjective, reverse: bool, pack: bool, zero: bool) {
     let x = rand_vec(rng, m * r, e.t);
-    let w = rand_vec(rng, r * n, e.t);
-    let bias = rand_vec(rng, m * n, e.t);
+    let w = if zero { vec![0; r * n] } else { rand_vec(rng, r * n, e.t) };
+    let bias = if zero { vec![0; m * n] } else { rand_vec(rng, m * n, e.t) };
     let base = json!({"k": "matmul", "helper": "cheetah", "objective": format!("{:?}", objective), "reverse": reverse, "pack": pack, "N": e.n, "t": e.t, "m": m, "r": r, "n": n, "x": x, "w": w, "bias": bias});
     let out = guarded(|| {
         let h = MatmulHelper::new(m, r, n, e.n, objective, pack);
@@ -182,10 +186,15 @@ fn bolt(e: &Env, rng: &mut impl Rng, which: &str, m: usize, r: usize, n: usize) 
 }
 
 fn conv(e: &Env, rng: &mut impl Rng, bs: usize, ci: usize, co: usize, h: usize, w: usize, kh: usize, kw: usize, reverse: bool) {
+    conv_with(e, rng, bs, ci, co, h, w, kh, kw, reverse, false);
+}
+
+/// `zero`: all-zero weights and bias (a sparse layer): every output is 0 and the decrypted polynomials are short
+fn conv_with(e: &Env, rng: &mut impl Rng, bs: usize, ci: usize, co: usize, h: usize, w: usize, kh: usize, kw: usize, reverse: bool, zero: bool) {
     let (oh, ow) = (h - kh + 1, w - kw + 1);
     let x = rand_vec(rng, bs * ci * h * w, e.t);
-    let wt = rand_vec(rng, co * ci * kh * kw, e.t);
-    let bias = rand_vec(rng, bs * co * oh * ow, e.t);
+    let wt = if zero { vec![0; co * ci * kh * kw] } else { rand_vec(rng, co * ci * kh * kw, e.t) };
+    let bias = if zero { vec![0; bs * co * oh * ow] } else { rand_vec(rng, bs * co * oh * ow, e.t) };
     let base = json!({"k": "conv", "helper": "conv2d", "reverse": reverse, "N": e.n, "t": e.t, "bs": bs, "ci": ci, "co": co, "h": h, "wd": w, "kh": kh, "kw": kw, "x": x, "w": wt, "bias": bias});
     let out = guarded(|| {
         let hp = Conv2dHelper::new(bs, ci, co, h, w, kh, kw, e.n, if reverse { Conv2dHelperObjective::PlainCipher } else { Conv2dHelperObjective::CipherPlain });
@@ -246,6 +255,13 @@ pub fn main(args: &[String]) {
                     }
                 }
             }
+            // sparse layers: all-zero weights and bias
+            for (m, r, nn) in [(1, 1, 1), (2, 3, 2), (4, 4, 3), (3, 2, 5), (20, 3, 2)] {
+                for pack in [false, true] {
+                    cheetah_with(&e, &mut rng, m, r, nn, MatmulHelperObjective::CipherPlain, false, pack, true);
+                    cheetah_with(&e, &mut rng, m, r, nn, MatmulHelperObjective::PlainCipher, true, pack, true);
+                }
+            }
             // shapes needing several ciphertexts and partial last blocks
             for (m, r, nn) in [(20, 3, 2), (3, 20, 5), (2, 5, 19), (7, 7, 7), (40, 2, 3), (9, 17, 3)] {
                 for pack in [false, true] {
@@ -294,6 +310,9 @@ pub fn main(args: &[String]) {
                                 continue;
                             }
                             conv(&e, &mut rng, bs, ci, co, h, w, kh, kw, (h + w + ci) % 2 == 0);
+                            if (h + 2 * w + kh + kw + co) % 3 == 0 {
+                                conv_with(&e, &mut rng, bs, ci, co, h, w, kh, kw, (h + w + ci) % 2 == 0, true);
+                            }
                         }
                     }
                 }
